@@ -27,6 +27,8 @@ type scanEnding struct {
 	CloseTwice bool   `json:"close_twice,omitempty"`
 	RenewMS    int    `json:"renew_ms,omitempty"` // renewal interval, 0 = off
 	SleepMS    int    `json:"sleep_ms,omitempty"` // consumer pause between Next calls
+	// IdleAfterEnd: after Close / cancel the consumer does not touch the scanner for 3 renewal intervals
+	IdleAfterEnd bool `json:"idle_after_end,omitempty"`
 }
 
 type scanCase struct {
@@ -168,6 +170,13 @@ func scanOnce(c scanCase, m *scanModel) (out Outcome) {
 		if !ended {
 			cancel()
 		}
+	}
+	// the user walks away from the scanner for a while (no Next after Close / cancel): whatever
+	// still runs in the background (lease renewer) gets several intervals to show itself
+	if c.End.RenewMS > 0 && c.End.IdleAfterEnd {
+		synctest.Wait()
+		time.Sleep(3 * time.Duration(c.End.RenewMS) * time.Millisecond)
+		synctest.Wait()
 	}
 	// phase 3: after the ending only buffered rows (after Close), at most one
 	// error (after cancel), then io.EOF forever
@@ -470,7 +479,13 @@ func TestC06_Scanner(t *testing.T) {
 			"sorted range-filtered model table, each row once and whole, then io.EOF. Non-trivial = >= 2 region "+
 			"scanners, a fragmented row, a heartbeat, or a bound equal to a region boundary; distinct by case hash")
 	Drive(t, rec, false, func(t *rapid.T) scanCase {
-		return scanCase{Spec: scanSpecGen(t), End: scanEnding{Kind: "exhaust"}}
+		c := scanCase{Spec: scanSpecGen(t), End: scanEnding{Kind: "exhaust"}}
+		if rapid.IntRange(0, 5).Draw(t, "renew") == 0 {
+			// a slow consumer with lease renewal: the renewer's requests run between the fetches
+			c.End.RenewMS = rapid.SampledFrom([]int{5, 50, 1000}).Draw(t, "renewms")
+			c.End.SleepMS = rapid.SampledFrom([]int{1, 7, 120, 3000}).Draw(t, "sleepms")
+		}
+		return c
 	}, scanRun)
 }
 
@@ -494,6 +509,7 @@ func TestC14_Scanner(t *testing.T) {
 		if rapid.IntRange(0, 3).Draw(t, "renew") == 0 {
 			c.End.RenewMS = rapid.SampledFrom([]int{5, 50, 1000}).Draw(t, "renewms")
 			c.End.SleepMS = rapid.SampledFrom([]int{0, 1, 7, 120, 3000}).Draw(t, "sleepms")
+			c.End.IdleAfterEnd = rapid.Bool().Draw(t, "idle")
 		}
 		return c
 	}, scanRun)
